@@ -2,12 +2,14 @@
 EXTENDS Naturals, Sequences, TLC, Json
 NoDev == {}
 DevKept == {"HookKeptIfPresent"}
+DevInBand == {"NestedTimeoutInBand"}
 Ideal == INSTANCE LuaSession WITH Dev <- NoDev
 Seeded == INSTANCE LuaSession WITH Dev <- DevKept
+InBand == INSTANCE LuaSession WITH Dev <- DevInBand
 St(k, lim) == [k |-> k, lim |-> lim]
 First == { St(k, l) : k \in {"nofn", "nomod", "bad"}, l \in {1, 60} } \cup { St("heavy", 1), St("spin", 1) }
 Probe == { St("heavy", 1), St("heavy", 60), St("spin", 1) }
-Nested == { St("nmspin", 1), St("nfspin", 1), St("nbspin", 1) }
+Nested == { St("nmspin", 1), St("nfspin", 1), St("nbspin", 1), St("nspin", 1), St("nlspin", 1) }
 Sessions == { <<n>> : n \in Nested } \cup { <<n, p>> : n \in Nested, p \in {St("heavy", 1), St("spin", 1)} }
             \cup { <<f, p>> : f \in First, p \in Probe } \cup { <<f, St("pause", 0), p>> : f \in First, p \in Probe }
             \cup { <<f, g, St("pause", 0), p>> : f \in {St("nofn", 1), St("bad", 60)}, g \in {St("nomod", 60), St("spin", 1)}, p \in Probe }
@@ -20,4 +22,6 @@ Emit == PrintT(<<"CASE", ToJson([sess |-> sess, out |-> Ideal!Outcomes(sess)])>>
 GenInv == Laws /\ Emit
 \* Demo: with the hook kept when present, some session violates the demand
 DemoKept == Seeded!MeetsDemand(sess)
+\* Demo: with the nested timeout handed on in-band, some session violates the demand
+DemoInBand == InBand!MeetsDemand(sess)
 =============================================================================
